@@ -133,6 +133,26 @@ CHECKS = {
    note="Trusted: TLC, LazyInit.tla, the scheduler. Yield points: bytecode instructions of the listed functions and lock operations; C-level atomicity "
         "(GIL build) assumed. bcrypt's shared-owner backend loading is not schedule-explored.",
    technique="TLA+ spec (LazyInit.tla) model-checked with TLC (safety + liveness) + preemption-bounded enumeration of real schedules validated against the spec"),
+ "C01": dict(cat=MC, design="DESIGN.md §3 C01",
+   text="HashVerify.tla gives, per hasher class (truncation limit in bytes, 7-bit, case folding, blanks, NUL policy, refusal, disabled), the outcome of "
+        "hash() and of verify() for every candidate password over a symbol alphabet where characters are not bytes; TLC checks self-verification, "
+        "exactness up to the documented equivalences and disabled-never-verifies for all passwords <= 3 symbols x all near misses; the enumerated "
+        "transitions of each hasher's documented class are executed on every hasher with a usable backend (74 classic/LDAP/Django hashers + 6 libpass "
+        "classes): hash as text or bytes, directly or through a CryptContext, identify, and verify of each near miss in text and bytes form, with a "
+        "filler prefix that places the model's byte positions on the real limits and on digest block boundaries.",
+   note="Trusted: TLC, HashVerify.tla, the class table (from the documentation). Passwords are structured (filler + <= 3 symbols). NUL symbols are not "
+        "used for HMAC-keyed and zero-padding formats (trailing NUL equivalence is inherent in the published constructions); SASLprep equivalences "
+        "of scram are not exercised; argon2 has no backend here.",
+   technique="TLA+ spec (HashVerify.tla) model-checked with TLC + spec-to-implementation replay on every shipped hasher"),
+ "C05": dict(cat=MC, design="DESIGN.md §3 C05",
+   text="Same specification as C01 with the truncation / size / NUL clauses: TLC checks that with truncate_error nothing beyond the limit is accepted, "
+        "that without it exactly the first limit-many BYTES matter in hash and verify alike, that passwords beyond the library-wide maximum are refused "
+        "and that NUL is refused by crypt()-compatible classes; for every truncating hasher ALL passwords whose byte length is limit-1/limit/limit+1 "
+        "built from 1- and 2-byte characters are executed with truncate_error on and off (set on the hasher, as scheme option or context-wide), text "
+        "and bytes; every hasher and CryptContext at 4095/4096/4097 bytes; NUL at several positions.",
+   note="Trusted: TLC, HashVerify.tla. Known finding (recorded): verify() matches on the truncated portion even with truncate_error=True (documented "
+        "library policy). lmhash only in its default single-byte encoding; the maximum is measured on ASCII passwords.",
+   technique="TLA+ spec (HashVerify.tla) model-checked with TLC + spec-to-implementation replay with byte-exact boundary placement"),
 }
 PENDING = {}
 props = [json.loads(l) for l in open(os.path.join(HERE, "properties.jsonl"))]
